@@ -28,6 +28,6 @@ GNext == /\ Next
                          \o (IF Called # {} THEN <<CallRec(CHOOSE q \in Called : TRUE)>> ELSE <<>>)
                          \o (IF Returned # {} THEN <<RetRec(CHOOSE q \in Returned : TRUE)>> ELSE <<>>)
          /\ (Returned # {} /\ (EmitEvery = 1 \/ RandomElement(1..EmitEvery) = 1))
-              => PrintT(ToJson([params |-> [E |-> E, R |-> R, P |-> P, t0 |-> P], cfg |-> cfg, viol |-> viol', path |-> hist']))
+              => PrintT(ToJson([params |-> [E |-> E, R |-> R, P |-> P, t0 |-> P, frac |-> Frac], cfg |-> cfg, viol |-> viol', path |-> hist']))
 GSpec == GInit /\ [][GNext]_gvars
 =============================================================================
